@@ -188,8 +188,8 @@ _S4 = ("durations T_i = sigma*rho_i with sigma in [0.1,10] s (log-uniform, 8 ste
        "non-zero / generic, commensurate with the motion; start time in {0, k/8, 1e3 k, 1e6 k, 1e9}")
 
 PROPS["C01"] = {
-    "jobs": _fwd_jobs("C01", 3000, 150000),
-    "floor_quick": 25000, "floor_thorough": 1000000,
+    "jobs": _fwd_jobs("C01", 12000, 300000),
+    "floor_quick": 100000, "floor_thorough": 2000000,
     "rule": "order (cubic/quintic/septic) x dimension 1..10 (one binary each) x " + _S4 + "; 1/4 of the cases use exactly representable (dyadic) times; BoundaryConditions built by field assignment or the "
             "2-/4-/6-argument constructor; route in {ctor(durations,start), ctor(time points), default+update(durations), default+update(time points), update of an object that held and answered queries for "
             "a different problem}. non-trivial = N >= 2, or N = 1 with a non-zero boundary derivative; distinct = hash of consumed tape",
@@ -208,7 +208,7 @@ def _c02_extra(tier, dims):
 
 
 PROPS["C02"] = {
-    "jobs": _fwd_jobs("C02", 2400, 120000, _c02_extra),
+    "jobs": _fwd_jobs("C02", 7200, 200000, _c02_extra),
     "floor_quick": 15000, "floor_thorough": 1000000,
     "rule": "as C01 (" + _S4 + "), constructed through either time specification; plus [C02e] the enumerated structures order x N in 1..10 x {all equal, one short among long at every position, "
             "one long among short at every position, alternating (2 phases), geometric ramp (2 directions)} at the edge of the well-scaled ratio, generated data per structure. Each case is decided by "
@@ -221,7 +221,7 @@ PROPS["C02"] = {
 }
 
 PROPS["C04"] = {
-    "jobs": _fwd_jobs("C04", 6000, 300000),
+    "jobs": _fwd_jobs("C04", 36000, 600000),
     "floor_quick": 25000, "floor_thorough": 1000000,
     "rule": "order x dimension x N x durations sigma*rho in [1e-3,1e3] s at any ratio up to 1e4 (same shapes as s4) x data; the object is fresh or has answered getEnergy() for another problem and was then "
             "updated through either overload; 2/14 of the cases are closed-form anchors (one segment sampled from x = a t^s/s!; N segments sampled from a polynomial of degree < s). "
@@ -239,7 +239,7 @@ def _c18_extra(tier, dims):
 
 
 PROPS["C18"] = {
-    "jobs": _fwd_jobs("C18", 8000, 400000, _c18_extra),
+    "jobs": _fwd_jobs("C18", 40000, 800000, _c18_extra),
     "floor_quick": 25000, "floor_thorough": 1000000,
     "rule": "order x dimension (quick 1,3,4,6; thorough 1..10) x N in 2..40 x ratio in [1,100] (pinned 4,10,20,30,50,100 or log-uniform) x placement {single short among long at every position, single long among short, "
             "alternating, geometric ramp, log-uniform mix} x min T in [0.01,1] s x data incl. non-zero boundary derivatives, start time 0. non-trivial = ratio >= 10 and N >= 3",
@@ -320,7 +320,7 @@ PROPS["C10"] = {
     "assumptions": ["fresh-vs-reused cannot see an error common to both (that is the job of C01..C06)", "harness built without -march=native/-ffast-math so that both objects run identical arithmetic"],
 }
 PROPS["C13"] = {
-    "jobs": _meta_jobs("C13", 2000, 100000),
+    "jobs": _meta_jobs("C13", 12000, 200000),
     "floor_quick": 10000, "floor_thorough": 500000,
     "rule": "order x D (quick 2,3,4,5,8,10; thorough 2..10) x N x " + _S4 + ", through either time specification; the D-dimensional spline is compared with the D one-dimensional splines built from its columns: "
             "coefficients, evaluations, propagated point/boundary gradients and energy gradients coordinate by coordinate, energy and duration gradients as sums over coordinates; then the same for a generated coordinate permutation. "
@@ -329,7 +329,7 @@ PROPS["C13"] = {
     "assumptions": ["D = 1 is trivially true and not run"],
 }
 PROPS["C14"] = {
-    "jobs": _meta_jobs("C14", 3000, 150000),
+    "jobs": _meta_jobs("C14", 24000, 400000),
     "floor_quick": 12000, "floor_thorough": 500000,
     "rule": "order x dimension (quick 1,2,3,4,6) x N x " + _S4 + " (no common offset); one relation per case: start-time shift (also applied to an existing object via update with identical durations), translation "
             "(exactly representable data: bitwise; generic: tolerance), data scaling by 2^k (bitwise) or generic lambda, duration scaling by 2^k with rescaled boundary derivatives (bitwise) or generic mu, time reversal "
@@ -373,7 +373,7 @@ PROPS["C09"] = {
 
 def _c15_jobs(tier):
     out = []
-    per = 700 if tier == "quick" else 40000
+    per = 1400 if tier == "quick" else 40000
     for o in OPT_ORDERS:
         for d in (1, 2, 3):
             out += split("opt_layout_o%d_d%d" % (o, d), per, 1 if tier == "quick" else 2, prop="C15")
@@ -409,19 +409,27 @@ def _opt_cost_jobs(prop, per_quick, per_thorough, dims):
     return jobs
 
 
+def _c07_jobs(tier):
+    out = _opt_cost_jobs("C07", 768, 768 * 24, (1, 2, 3, 4))(tier)
+    out += _opt_cost_jobs("C07x", 500, 25000, (1, 2, 3, 4))(tier)
+    return out
+
+
 PROPS["C07"] = {
-    "jobs": _opt_cost_jobs("C07", 768, 768 * 24, (1, 2, 3, 4)),
+    "jobs": _c07_jobs,
     "floor_quick": 9216, "floor_thorough": 200000,
     "rule": "[enumerated] all 256 flag combinations x 3 map pairs (QuadInv+Identity, IdentityTime+Identity, user time map {exp, softplus, quadratic-inverse} + user spatial map with per-point unconstrained dimension DIM-1/DIM/DIM+1 "
             "(affine, sphere, identity)) for each of 3 orders x dimensions 1..4 (12 binaries); per configuration generated: N in 1..6, durations/waypoints/boundary state, start time, energy weight 0 or 2^k (scaled), K in {1,2,3,4,5,8,16,64}, "
             "time/waypoint/running cost programs depending on p,v,a,j,s, global time and segment index, decision vector = initial guess perturbed in every slot. Oracle: central differences with Richardson extrapolation of the cost RETURNED by "
-            "evaluate for every coordinate and 3 generated directions. non-trivial = a boundary-derivative or end-point flag set, K >= 2 and a running cost with non-zero explicit-time gradient",
+            "evaluate for every coordinate and 3 generated directions. [C07x] non-FD cross-check with the identity maps (generated flags, N, K, weight, costs): the gradient is re-derived from the reference minimiser (R2), the user's cost gradients at the reference states, "
+            "the documented quadrature (incl. the drift and the explicit-time terms) and the reference Jacobian (R4), and compared entry by entry at 1e-7 of the condition-aware scale. "
+            "non-trivial = a boundary-derivative or end-point flag set, K >= 2 and a running cost with non-zero explicit-time gradient",
     "exhaustive_note": "flags x map pairs (768 configurations per order and dimension) are enumerated completely on every run",
     "tolerances": {"finite differences": "1e-6 (|grad|inf + 1e-3 |cost|) + 2|D(h/2)-D(h)| + (8 eps + 1e-14/1e-13/1e-11) sum|cost pieces| / h, h = 2^-12; loose fraction reported"},
     "assumptions": ["smooth cost functors of the stated families; time enters the running cost only through t_global (documented protocol)", "durations kept >= 0.05 s", "duration ratio <= 8"],
 }
 PROPS["C08"] = {
-    "jobs": _opt_cost_jobs("C08", 1200, 60000, (1, 2, 3)),
+    "jobs": _opt_cost_jobs("C08", 4800, 120000, (1, 2, 3)),
     "floor_quick": 9000, "floor_thorough": 400000,
     "rule": "order x dimension 1..3 x map pair x N in 1..6 x flags (any of 256) x start time (0, k/8, 100k) x K in {1,2,3,4,5,7,8,16,33,64} x energy weight x cost programs x decision vector; a recording running-cost functor logs every call. "
             "Checked: exactly N(K+1) calls, each node once, local time k/K*T_i, global time = start + elapsed durations + local time, position..snap handed over = the workspace trajectory's derivatives at that instant (long-double reference), "
